@@ -26,7 +26,9 @@ func TestMain(m *testing.M) {
 			"inside a string literal or block comment: in line mode ContinuationNeeded() must be true and Errors() empty; feeding the remainder as the REPL does (previous + newline + rest) must give the tree " +
 			"of the complete program. (3) typed-grammar scripts of 2..25 top-level statements (with macros defined before use) evaluated at once versus split into consecutive chunks at generated statement " +
 			"boundaries and fed to one persistent session: concatenated output and final globals must be equal. Non-trivial: (1) a newline inside an open bracket; (2) every cut, classified by the open construct; " +
-			"(3) a split into >= 2 chunks of a script with a function or macro used across a chunk boundary; distinct by text (and cut position).",
+			"(3) a split into >= 2 chunks of a script with a function or macro used across a chunk boundary; distinct by text (and cut position). " +
+			"(4) the interactive REPL itself: the grol command is started on a pseudo terminal (script(1)) and multi-line programs - strings, brackets, blocks and comments spanning lines, with blank " +
+			"lines inside and between them - are typed line by line; what they print must equal what the same text prints when run as a file by the same binary (skipped where script(1) is missing).",
 		Assumptions: []string{
 			"cuts after a prefix operator, a dot, or the keywords if / for / else are exercised and labelled but not asserted (the property names brackets, strings, comments and binary operators)",
 			"scripts that end in an error when evaluated at once are outside clause 3 and skipped (counted)",
@@ -389,6 +391,9 @@ func TestScripts(t *testing.T) {
 }
 
 func oracle(kind string, raw json.RawMessage) error {
+	if kind == "terminal" {
+		return terminalOracle(raw)
+	}
 	if kind == "script" {
 		var sc Script
 		if err := json.Unmarshal(raw, &sc); err != nil {
